@@ -6,6 +6,8 @@ preservation by every step. Used by `Props/C05.lean`.
 * `ProcInv`   – endpoints named by a gap thread or a registered hook belong to that process
 * `ClosedInv` – an endpoint that is not closed has a witness that its `Close()` is still owed
 * `PMuInv`    – the owner field of every port mutex agrees with the program counters
+* `PInv`      – endpoint ids in use are below `nep`; the pump counter equals the number of created and not
+                closed endpoints; no thread is at the program point of the allocate-before-lock variant
 -/
 import Uniflow.Model.PortMaps
 
@@ -322,21 +324,35 @@ theorem all_step (s s' : State) (t : Tid) (ev : Ev) (h : AllInv s) (hs : step s 
     · intro e' hlt hc
       exact ewitness_frame s _ t e' rfl rfl (ho _) (by rw [hpc]; simp [willClose]) (h.cls e' hlt hc)
   | closeAll es =>
-    simp only [step, hpc] at hs
-    cases hs
-    refine ⟨?_, ⟨?_, ?_⟩, ?_⟩
-    · intro q' p' hq
-      exact witness_frame s _ t q' p' rfl rfl (ho _) (by rw [hpc]; simp [pendsOn]) (h.res q' p' hq)
-    · intro t' q' p' e' hg
-      by_cases e1 : t' = t
-      · subst e1; simp at hg
-      · simp only [ho _ t' e1] at hg; exact h.prc.gap t' q' p' e' hg
-    · exact h.prc.hk
-    · intro e' hlt hc
-      have hc' : (s.closed e' || es.contains e') = false := hc
-      simp only [Bool.or_eq_false_iff] at hc'
-      refine ewitness_frame s _ t e' rfl rfl (ho _) ?_ (h.cls e' hlt hc'.1)
-      rw [hpc]; simp only [willClose, hc'.2]; intro x; cases x
+    match es with
+    | [] =>
+      simp only [step, hpc] at hs
+      cases hs
+      exact all_move s _ t _ h rfl rfl rfl rfl rfl rfl rfl (by intro _ _ _ x; cases x)
+        (by intro q' p'; rw [hpc]; simp [pendsOn]) (by intro e; rw [hpc]; simp [willClose])
+    | e :: rest =>
+      simp only [step, hpc] at hs
+      cases hs
+      refine ⟨?_, ⟨?_, ?_⟩, ?_⟩
+      · intro q' p' hq
+        exact witness_frame s _ t q' p' rfl rfl (ho _) (by rw [hpc]; simp [pendsOn]) (h.res q' p' hq)
+      · intro t' q' p' e' hg
+        by_cases e1 : t' = t
+        · subst e1; simp at hg
+        · simp only [ho _ t' e1] at hg; exact h.prc.gap t' q' p' e' hg
+      · exact h.prc.hk
+      · intro e' hlt hc
+        by_cases e1 : e' = e
+        · subst e1; simp at hc
+        · simp only [upd_other _ _ _ _ e1] at hc
+          refine ewitness_frame s _ t e' rfl rfl (ho _) ?_ (h.cls e' hlt hc)
+          rw [hpc]
+          show willClose e' (Pc.closeAll (e :: rest)) = true → willClose e' (upd s.thr t (Pc.closeAll rest) t) = true
+          simp only [upd_same, willClose, List.contains_cons]
+          intro hx
+          have : (e' == e) = false := by simpa using e1
+          simpa [this] using hx
+  | openHoldE q p e => simp [step, hpc] at hs
   | exitFlip p =>
     simp only [step, hpc] at hs
     split at hs
@@ -552,9 +568,10 @@ theorem pmu_step (s s' : State) (t : Tid) (ev : Ev) (h : PMuInv s) (hs : step s 
     cases hs
     exact pmu_release s _ t q _ h (by intro q'; rw [hpc]; rfl) rfl rfl (by intro q'; rfl)
   | closeAll es =>
-    simp only [step, hpc] at hs
-    cases hs
-    exact pmu_move s _ t _ h rfl rfl (by intro q'; rw [hpc]; rfl)
+    match es with
+    | [] => simp only [step, hpc] at hs; cases hs; exact pmu_move s _ t _ h rfl rfl (by intro q'; rw [hpc]; rfl)
+    | e :: rest => simp only [step, hpc] at hs; cases hs; exact pmu_move s _ t _ h rfl rfl (by intro q'; rw [hpc]; rfl)
+  | openHoldE q p e => simp [step, hpc] at hs
   | exitFlip p =>
     simp only [step, hpc] at hs
     split at hs <;> (cases hs; exact pmu_move s _ t _ h rfl rfl (by intro q'; rw [hpc]; rfl))
@@ -594,5 +611,268 @@ theorem holder_enabled (s : State) (h : PMuInv s) (q : Port) (tm : Tid) (hm : s.
   · simp [enabled, step, hpc]
   · simp [enabled, step, hpc]
 
+
+
+/-! ### pump accounting -/
+
+def kEps : Kont → List Eid
+  | .ret => []
+  | .exit rest => rest.map (·.2)
+
+/-- the endpoints a thread still holds in its hands -/
+def mentions : Pc → List Eid
+  | .openGap _ _ e => [e]
+  | .hookWant _ _ e k => e :: kEps k
+  | .hookHold _ _ e k => e :: kEps k
+  | .hookClose _ e k => e :: kEps k
+  | .closeAll es => es
+  | .exitRun _ hs => hs.map (·.2)
+  | .openHoldE _ _ e => [e]
+  | _ => []
+
+def isEarly : Pc → Bool
+  | .openHoldE _ _ _ => true
+  | _ => false
+
+structure PInv (s : State) : Prop where
+  thr : ∀ t e, e ∈ mentions (s.thr t) → e < s.nep
+  hk : ∀ p q e, (q, e) ∈ s.hooks p → e < s.nep
+  pumps : s.pumps = openBelow s.closed s.nep
+  early : ∀ t, isEarly (s.thr t) = false
+
+theorem openBelow_congr (c c' : Eid → Bool) (n : Nat) (h : ∀ i, i < n → c i = c' i) :
+    openBelow c n = openBelow c' n := by
+  induction n with
+  | zero => rfl
+  | succ n ih => simp only [openBelow]; rw [ih (fun i hi => h i (Nat.lt_succ_of_lt hi)), h n (Nat.lt_succ_self n)]
+
+theorem openBelow_close (c : Eid → Bool) (n e : Nat) (he : e < n) :
+    openBelow (upd c e true) n + (if c e then 0 else 1) = openBelow c n := by
+  induction n with
+  | zero => omega
+  | succ n ih =>
+    simp only [openBelow]
+    by_cases e1 : e = n
+    · subst e1
+      have := openBelow_congr (upd c e true) c e (fun i hi => upd_other _ _ _ _ (Nat.ne_of_lt hi))
+      rw [this, upd_same]; simp
+    · have h1 := ih (by omega)
+      rw [upd_other _ _ _ _ (fun x => e1 x.symm)]
+      omega
+
+theorem openBelow_zero (c : Eid → Bool) (n : Nat) (h : ∀ e, e < n → c e = true) : openBelow c n = 0 := by
+  induction n with
+  | zero => rfl
+  | succ n ih => simp only [openBelow]; rw [ih (fun e he => h e (Nat.lt_succ_of_lt he)), h n (Nat.lt_succ_self n)]; rfl
+
+/-- closing endpoint `e < nep`: the counter follows the count -/
+theorem pumps_close (s : State) (e : Eid) (he : e < s.nep) (h : s.pumps = openBelow s.closed s.nep) :
+    closePump s e = openBelow (upd s.closed e true) s.nep := by
+  have := openBelow_close s.closed s.nep e he
+  unfold closePump
+  split <;> simp_all <;> omega
+
+theorem pinv_move (s s' : State) (t : Tid) (pc' : Pc) (h : PInv s)
+    (hhooks : s'.hooks = s.hooks) (hn : s'.nep = s.nep) (hcl : s'.closed = s.closed) (hp : s'.pumps = s.pumps)
+    (hthr : s'.thr = upd s.thr t pc')
+    (hm : ∀ e, e ∈ mentions pc' → e ∈ mentions (s.thr t)) (he : isEarly pc' = false) : PInv s' := by
+  refine ⟨?_, ?_, ?_, ?_⟩
+  · intro t' e hme
+    rw [hn]; rw [hthr] at hme
+    by_cases e1 : t' = t
+    · subst e1; rw [upd_same] at hme; exact h.thr t' e (hm e hme)
+    · rw [upd_other _ _ _ _ e1] at hme; exact h.thr t' e hme
+  · intro p q e hme; rw [hn]; rw [hhooks] at hme; exact h.hk p q e hme
+  · rw [hp, hcl, hn]; exact h.pumps
+  · intro t'
+    rw [hthr]
+    by_cases e1 : t' = t
+    · subst e1; rw [upd_same]; exact he
+    · rw [upd_other _ _ _ _ e1]; exact h.early t'
+
+theorem pinv_step (s s' : State) (t : Tid) (ev : Ev) (h : PInv s) (hs : step s t = some (s', ev)) : PInv s' := by
+  have ho : ∀ (pc' : Pc) (t' : Tid), t' ≠ t → upd s.thr t pc' t' = s.thr t' := fun pc' t' ht' => upd_other _ _ _ _ ht'
+  cases hpc : s.thr t with
+  | idle => simp [step, hpc] at hs
+  | openChk q p =>
+    simp only [step, hpc] at hs
+    split at hs <;> (cases hs; exact pinv_move s _ t _ h rfl rfl rfl rfl rfl (by intro e x; simp [mentions] at x) rfl)
+  | openRd q p =>
+    simp only [step, hpc] at hs
+    split at hs
+    · split at hs <;> (cases hs; exact pinv_move s _ t _ h rfl rfl rfl rfl rfl (by intro e x; simp [mentions] at x) rfl)
+    · cases hs
+  | openWant q p =>
+    simp only [step, hpc] at hs
+    split at hs
+    · cases hs; exact pinv_move s _ t _ h rfl rfl rfl rfl rfl (by intro e x; simp [mentions] at x) rfl
+    · cases hs
+  | openHold q p =>
+    simp only [step, hpc] at hs
+    split at hs
+    · cases hs; exact pinv_move s _ t _ h rfl rfl rfl rfl rfl (by intro e x; simp [mentions] at x) rfl
+    · cases hs
+      refine ⟨?_, ?_, ?_, ?_⟩
+      · intro t' e hme
+        by_cases e1 : t' = t
+        · subst e1
+          simp only [upd_same, mentions, List.mem_singleton] at hme
+          subst hme; exact Nat.lt_succ_self _
+        · simp only [ho _ t' e1] at hme; exact Nat.lt_succ_of_lt (h.thr t' e hme)
+      · intro p' q' e hme; exact Nat.lt_succ_of_lt (h.hk p' q' e hme)
+      · show s.pumps + 1 = openBelow (upd s.closed s.nep false) (s.nep + 1)
+        simp only [openBelow, upd_same]
+        rw [openBelow_congr (upd s.closed s.nep false) s.closed s.nep (fun i hi => upd_other _ _ _ _ (Nat.ne_of_lt hi)), h.pumps]
+        simp
+      · intro t'
+        by_cases e1 : t' = t
+        · subst e1; simp [isEarly]
+        · simp only [ho _ t' e1]; exact h.early t'
+  | openGap q p e =>
+    simp only [step, hpc] at hs
+    split at hs
+    · cases hs; exact pinv_move s _ t _ h rfl rfl rfl rfl rfl (by intro e' x; rw [hpc]; simpa [mentions, kEps] using x) rfl
+    · cases hs
+      have hb : e < s.nep := h.thr t e (by rw [hpc]; simp [mentions])
+      refine ⟨?_, ?_, h.pumps, ?_⟩
+      · intro t' e' hme
+        by_cases e1 : t' = t
+        · subst e1; simp [mentions] at hme
+        · simp only [ho _ t' e1] at hme; exact h.thr t' e' hme
+      · intro p' q' e' hme
+        have hme' : (q', e') ∈ upd s.hooks p ((q, e) :: s.hooks p) p' := hme
+        by_cases e1 : p' = p
+        · subst e1
+          simp only [upd_same, List.mem_cons, Prod.mk.injEq] at hme'
+          rcases hme' with ⟨_, rfl⟩ | hme'
+          · exact hb
+          · exact h.hk p' q' e' hme'
+        · rw [upd_other _ _ _ _ e1] at hme'; exact h.hk p' q' e' hme'
+      · intro t'
+        by_cases e1 : t' = t
+        · subst e1; simp [isEarly]
+        · simp only [ho _ t' e1]; exact h.early t'
+  | hookWant q p e k =>
+    simp only [step, hpc] at hs
+    split at hs
+    · cases hs; exact pinv_move s _ t _ h rfl rfl rfl rfl rfl (by intro e' x; rw [hpc]; simpa [mentions] using x) rfl
+    · cases hs
+  | hookHold q p e k =>
+    simp only [step, hpc] at hs
+    cases hs; exact pinv_move s _ t _ h rfl rfl rfl rfl rfl (by intro e' x; rw [hpc]; simpa [mentions] using x) rfl
+  | hookClose p e k =>
+    simp only [step, hpc] at hs
+    cases hs
+    have hb : e < s.nep := h.thr t e (by rw [hpc]; simp [mentions])
+    refine ⟨?_, h.hk, pumps_close s e hb h.pumps, ?_⟩
+    · intro t' e' hme
+      by_cases e1 : t' = t
+      · subst e1
+        simp only [upd_same] at hme
+        refine h.thr t' e' ?_
+        rw [hpc]
+        cases k with
+        | ret => simp [Kont.next, mentions] at hme
+        | exit rest => simp only [Kont.next, mentions] at hme; simp only [mentions, kEps, List.mem_cons]; exact Or.inr hme
+      · simp only [ho _ t' e1] at hme; exact h.thr t' e' hme
+    · intro t'
+      by_cases e1 : t' = t
+      · subst e1; simp only [upd_same]; cases k <;> rfl
+      · simp only [ho _ t' e1]; exact h.early t'
+  | closeWant q =>
+    simp only [step, hpc] at hs
+    split at hs
+    · cases hs; exact pinv_move s _ t _ h rfl rfl rfl rfl rfl (by intro e x; simp [mentions] at x) rfl
+    · cases hs
+  | closeHold q =>
+    simp only [step, hpc] at hs
+    cases hs
+    refine ⟨?_, h.hk, h.pumps, ?_⟩
+    · intro t' e' hme
+      by_cases e1 : t' = t
+      · subst e1
+        simp only [upd_same, mentions, taken, List.mem_filter, List.mem_range] at hme
+        exact hme.1
+      · simp only [ho _ t' e1] at hme; exact h.thr t' e' hme
+    · intro t'
+      by_cases e1 : t' = t
+      · subst e1; simp [isEarly]
+      · simp only [ho _ t' e1]; exact h.early t'
+  | closeAll es =>
+    match es with
+    | [] =>
+      simp only [step, hpc] at hs
+      cases hs; exact pinv_move s _ t _ h rfl rfl rfl rfl rfl (by intro e x; simp [mentions] at x) rfl
+    | e :: rest =>
+      simp only [step, hpc] at hs
+      cases hs
+      have hb : e < s.nep := h.thr t e (by rw [hpc]; simp [mentions])
+      refine ⟨?_, h.hk, pumps_close s e hb h.pumps, ?_⟩
+      · intro t' e' hme
+        by_cases e1 : t' = t
+        · subst e1
+          simp only [upd_same, mentions] at hme
+          exact h.thr t' e' (by rw [hpc]; simp [mentions, hme])
+        · simp only [ho _ t' e1] at hme; exact h.thr t' e' hme
+      · intro t'
+        by_cases e1 : t' = t
+        · subst e1; simp [isEarly]
+        · simp only [ho _ t' e1]; exact h.early t'
+  | exitFlip p =>
+    simp only [step, hpc] at hs
+    split at hs
+    · cases hs; exact pinv_move s _ t _ h rfl rfl rfl rfl rfl (by intro e x; simp [mentions] at x) rfl
+    · cases hs
+      refine ⟨?_, ?_, h.pumps, ?_⟩
+      · intro t' e' hme
+        by_cases e1 : t' = t
+        · subst e1
+          simp only [upd_same, mentions, List.mem_map] at hme
+          obtain ⟨⟨q', e''⟩, hm1, rfl⟩ := hme
+          exact h.hk p q' e'' hm1
+        · simp only [ho _ t' e1] at hme; exact h.thr t' e' hme
+      · intro p' q' e' hme
+        have hme' : (q', e') ∈ upd s.hooks p [] p' := hme
+        by_cases e1 : p' = p
+        · subst e1; simp at hme'
+        · rw [upd_other _ _ _ _ e1] at hme'; exact h.hk p' q' e' hme'
+      · intro t'
+        by_cases e1 : t' = t
+        · subst e1; simp [isEarly]
+        · simp only [ho _ t' e1]; exact h.early t'
+  | exitRun p hks =>
+    match hks with
+    | [] =>
+      simp only [step, hpc] at hs
+      cases hs; exact pinv_move s _ t _ h rfl rfl rfl rfl rfl (by intro e x; simp [mentions] at x) rfl
+    | (q, e) :: rest =>
+      simp only [step, hpc] at hs
+      cases hs; exact pinv_move s _ t _ h rfl rfl rfl rfl rfl (by intro e' x; rw [hpc]; simpa [mentions, kEps] using x) rfl
+  | openHoldE q p e => simp [step, hpc] at hs
+
+theorem pinv_init : PInv init := by
+  refine ⟨?_, ?_, rfl, ?_⟩
+  · intro t e h; simp [init, mentions] at h
+  · intro p q e h; simp [init] at h
+  · intro t; rfl
+
+theorem pinv_apply (s : State) (a : Act) (h : PInv s) : PInv (apply s a) := by
+  cases a with
+  | call t c =>
+    simp only [apply]
+    split
+    · exact pinv_move s _ t _ h rfl rfl rfl rfl rfl (by intro e x; cases c <;> simp [Call.entry, mentions] at x) (by cases c <;> rfl)
+    · exact h
+  | step t =>
+    simp only [apply]
+    cases hst : step s t with
+    | none => exact h
+    | some pr => obtain ⟨s', e⟩ := pr; exact pinv_step s s' t e h hst
+
+theorem pinv_reach (sched : List Act) : PInv (run init sched) := by
+  suffices ∀ s, PInv s → PInv (run s sched) from this init pinv_init
+  induction sched with
+  | nil => intro s h; exact h
+  | cons a as ih => intro s h; exact ih _ (pinv_apply s a h)
 
 end Uniflow.PortMaps
